@@ -50,6 +50,18 @@ theorem parser_invariant (ps s : Gen.PState) (c : Nat) (hi : PInv ps) (h : Gen.s
 /-- non-vacuity of `LimitsOk`: the harness' configuration -/
 example : LimitsOk {} := ⟨by decide, by decide⟩
 
+/-- the FastCGI record reader computes `rec_size = content_length + padding_length` in the declared type of the
+variable (regenerated for both paths, `on_header_read` and `non_blocking_read_record`): for every header the wire can
+carry (content ≤ 65535, padding ≤ 255) the sum does not wrap, so `body_.resize(cur_size + rec_size)`,
+the read of `rec_size` bytes and `body_.resize(body_.size() - padding_length)` stay within bounds (the buffer-level
+model is a checked interpreter there, `no_crash_fcgi`).  Breaks when `rec_size` is narrowed below 17 bits. -/
+theorem record_sizes_exact (hb : Bytes) :
+    Gen.fcgiRecSizeAsync (parseFcgiHdr hb).contentLength (parseFcgiHdr hb).paddingLength =
+      (parseFcgiHdr hb).contentLength + (parseFcgiHdr hb).paddingLength ∧
+    Gen.fcgiRecSizeCached (parseFcgiHdr hb).contentLength (parseFcgiHdr hb).paddingLength =
+      (parseFcgiHdr hb).contentLength + (parseFcgiHdr hb).paddingLength :=
+  recSize_parse hb
+
 /-- `string_pool` (the storage behind every request's variables): for every sequence of allocations of any
 sizes and `clear()`s — the requests of a kept-alive connection — no allocation is handed bytes outside its
 `malloc` block.  The page size, the conditions of `allocate_space` and which block `clear()` keeps are
@@ -179,7 +191,7 @@ theorem connection_closes_after_error (lim : Limits) :
     (∀ segs, ClosesAfterError (scgiConn lim segs)) ∧
     (∀ conc segs, ClosesAfterError (fcgiRun lim conc segs)) ∧
     (∀ cfg hints segs, ClosesAfterError (httpRun lim cfg hints segs)) :=
-  ⟨scgi_closes lim, fun conc segs => fcgi_closes bufReader lim conc _ _, fun cfg hints segs => http_closes lim cfg _ _ _⟩
+  ⟨scgi_closes lim, fun conc segs => fcgi_closes bufReader lim conc _ _, fun cfg hints segs => http_closes lim cfg _ _ _ _⟩
 
 /-- non-vacuity of `ClosesAfterError`: it does reject a connection that goes on after an error -/
 example : ¬ ClosesAfterError [.raw400, .raw400] := by
